@@ -29,7 +29,7 @@ UNIT = Unit(
            cut_from=re.compile(r"\n                    other => \{(?=\s*(?://[^\n]*\s*)*if !?matches!\(&other)"), cut_inside=True, cut_before="@block-end", cut_tail="",
            sig="fn lower_call_other(ctx: &mut LowerCtx, it: &CstNode, other: cst::Expr, args: Vec<ast::Expr>, trailing_args: Vec<ast::Expr>, astptr: MySyntaxNodePtr) -> Option<ast::Expr>",
            rewrites=[(re.compile(r"matches!\(\s*bin_expr\.op\(\)\.map\(\|tok\| tok\.kind\(\)\),\s*Some\(MySyntaxKind::Dot\)\s*\)"), "bin_is_dot(bin_expr)", "*"),
-                     (re.compile(r"combined_args\.extend\(trailing_args\);"), "vec_extend_exprs(&mut combined_args, trailing_args);", "*"),
+                     (re.compile(r"\b(\w+)\.extend\((\w+)\);"), r"vec_extend_exprs(&mut \1, \2);", "*"),
                      (re.compile(r"let func_expr = lower_expr\(ctx, other\)\?;"), "let func_expr = match lower_expr(ctx, other) { Some(v) => v, None => { return None; } };", "*")],
            obligation="a non-operator callee is called with the call's own arguments; an operator node takes all arguments inward, in order",
            contract="ensures call_lowered(r, other, args@, trailing_args@, astptr),"),
